@@ -125,7 +125,18 @@ def run_check(prop: str, tier: str, seed: int) -> int:
     t0 = time.time()
     ensure_venv()
     mod = props.module(prop)
-    jobs = mod.jobs(tier, seed)
+    if tier == "thorough" and hasattr(mod, "thorough_extra"):
+        # thorough = every quick job (core: must be exhausted) + deeper jobs (not core: an inconclusive deep job is reported
+        # and excluded from the claim, but does not turn the check into a harness error)
+        jobs = mod.jobs("quick", seed)
+        extra = mod.thorough_extra(seed)
+        for j in extra:
+            j.setdefault("core", False)
+            j.setdefault("cpu_cap", 3000)
+            j.setdefault("wall_cap", 4000)
+        jobs = jobs + extra
+    else:
+        jobs = mod.jobs(tier, seed)
     for i, j in enumerate(jobs):
         j.setdefault("prop", prop)
         j.setdefault("id", f"{prop}-{j['harness']}-{i}")
